@@ -266,7 +266,7 @@ fn c10_parent(args: &Args) {
     let tier_name = args.get("tier").unwrap_or("quick").to_string();
     let thorough = tier_name == "thorough";
     let workers = args.u64("workers", std::thread::available_parallelism().map(|n| n.get() as u64).unwrap_or(8)).max(1);
-    let scenarios = args.u64("scenarios", if thorough { 100_000 } else { 2_400 });
+    let scenarios = args.u64("scenarios", if thorough { 100_000 } else { 4_000 });
     let deadline = args.u64("max-wall-s", if thorough { 1800 } else { 150 });
     // The parent never runs the tree under test inside its own process: reference emissions come from the shipped
     // binary, executions from worker / c10-try subprocesses. A tree that aborts can only take a subprocess with it.
